@@ -959,9 +959,29 @@ def _run_transform_mismatch(case, seed):
     with warnings.catch_warnings():
         warnings.simplefilter("ignore")
         m = _fit_single(model, _container(_apply(X, fm), cont), 2, center=center)
+        good = _container(_apply(X, fm), cont)
+        before = m.transform(good)
         try:
             tr = m.transform(_container(_apply(X, fm2), cont))
         except Exception as e:  # noqa: BLE001
+            # a refusal must be repeatable and must leave the fitted model as it was: the same data again is refused again, and
+            # data with the training data's own gaps is still transformed, to the same scores as before the refused call
+            V = []
+            try:
+                tr2 = m.transform(_container(_apply(X, fm2), cont))
+                V.append(viol("mismatch_accepted_on_retry", model, "transform refused data whose fully missing features %s differ from the training data's %s (%s), "
+                              "but accepted the very same data on the next call; %d finite scores returned" % (fm2, fm, type(e).__name__, _finite_count(tr2)), container=cont, direction=direction, center=center))
+            except Exception:  # noqa: BLE001
+                pass
+            try:
+                after = m.transform(good)
+                d = float(np.nanmax(np.abs(np.asarray(after.values) - np.asarray(before.values)))) if after.shape == before.shape else float("inf")
+                if not d <= 1e-12:
+                    V.append(viol("refusal_changed_model", model, "after a refused transform, transform of data with the training data's own gaps differs from before by %.3e" % d, container=cont, direction=direction, center=center))
+            except Exception as e2:  # noqa: BLE001
+                V.append(viol("refusal_changed_model", model, "after a refused transform, data with the training data's own gaps is refused too: %s: %s" % (type(e2).__name__, str(e2)[:150]), container=cont, direction=direction, center=center))
+            if V:
+                return dict(violations=V, outcome="violation", nontrivial=False)
             return dict(outcome="rejected:" + type(e).__name__, nontrivial=False, info=dict(stage="transform"))
     v = viol("feature_mask_mismatch_accepted", model, "transform accepted data whose fully missing features %s differ from the training data's %s; %d finite scores returned"
              % (fm2, fm, _finite_count(tr)), container=cont, direction=direction, center=center)
